@@ -122,6 +122,8 @@ def gen_progs(i, stream, n_tasks, failing):
 
 
 def explore(chk, stream, n_programs, grid, n_random, failing):
+    import django_components.cache as DC
+    DC.template_cache = None          # see run_assets
     tplgen.patch_ids()
     found = 0
     for i in range(n_programs * 20):
@@ -318,6 +320,8 @@ def _lru_known(outs, expected, size_ok):
 def run_assets(chk, n):
     """first access of template_file / js_file / css_file from two threads"""
     from django_components import Component, registry
+    import django_components.cache as DC
+    DC.template_cache = None          # an empty template cache: no eviction, so the LRU finding stays out of this stream
     d = tempfile.mkdtemp(prefix="djc_c07_")
     try:
         for i in range(n):
